@@ -121,9 +121,10 @@ def run(ctx):
     for n in cp.walk():
         if n.k == "MemberExpr" and n.name in ("code", "exec") and unparse(n.c[0]).endswith("->orccode"):
             p = n.parent
-            while p is not None and p.k in ("CStyleCastExpr",):
+            # pointer arithmetic on the placement pointer is fine as long as the result is only an ADDRESS written to / handed on
+            while p is not None and (p.k in ("CStyleCastExpr", "ParenExpr") or (p.k == "BinaryOperator" and p.op in ("+", "-"))):
                 p = p.parent
-            okuse = p is not None and ((p.k == "CallExpr" and p.name in ("memcpy",) and p.args()[0] is not None and n in list(p.args()[0].walk()))
+            okuse = p is not None and ((p.k == "CallExpr" and p.name in ("memcpy", "memset", "memmove") and p.args()[0] is not None and n in list(p.args()[0].walk()))
                                        or (p.k == "BinaryOperator" and p.op == "=")
                                        or (p.k == "CallExpr"))
             if not okuse:
